@@ -172,6 +172,8 @@ def block_for(rng, ty, btype, fault=0.0, nested_name=True):
         if f["n"] == "Name" and t["k"] == "string" and not f.get("tag"):
             if rng.random() < 0.7:
                 name = bytes(rng.choice(b"abcdef-1") for _ in range(rng.randint(1, 6))).decode()
+                if rng.random() < 0.3:      # names that need escaping when written as a BCL string literal
+                    name = "".join(rng.choice(['\\', '"', "\t", "\n", "é", "a", " ", "C:\\temp", 'say "hi"', "#", "{"]) for _ in range(rng.randint(1, 3)))
             continue
         if rng.random() < 0.15:
             continue                                 # a struct field without a key is fine
